@@ -28,7 +28,7 @@ const retentionEpochs = 64 // the documented retention window ("Keep 64 epochs o
 
 // Op is one step of a history.
 type Op struct {
-	Kind string `json:"kind"` // block | nilblock | lookup | advance | clean
+	Kind string `json:"kind"` // block | nilblock | lookup | colookup | advance | clean | burst
 	Root int    `json:"root,omitempty"`
 	// Fail: the header provider fails if this lookup has to consult it.
 	Fail bool `json:"fail,omitempty"`
@@ -37,7 +37,13 @@ type Op struct {
 	FailKind int `json:"fail_kind,omitempty"`
 	// Burst (kind "burst"): number of goroutines delivering block events while cleans run concurrently.
 	Burst int `json:"burst,omitempty"`
-	Epochs uint64 `json:"epochs,omitempty"` // advance
+	// Optimistic (kind "block"): the event carries execution_optimistic=true.
+	Optimistic bool `json:"optimistic,omitempty"`
+	// Lookups (kind "colookup"): number of goroutines looking the same root up at the same time; the first
+	// header request is held by the provider until the others have started, then all are answered
+	// (or all fail, as Fail/FailKind say).
+	Lookups int    `json:"lookups,omitempty"`
+	Epochs  uint64 `json:"epochs,omitempty"` // advance
 	Slots  uint64 `json:"slots,omitempty"`  // advance (in addition to epochs)
 }
 
@@ -54,7 +60,10 @@ type Case struct {
 	// NonCanonical[i]: the beacon node serves root i's header with canonical=false (an orphaned or
 	// minority-fork block; it still has exactly one slot).
 	NonCanonical []bool `json:"non_canonical,omitempty"`
-	Ops          []Op   `json:"ops"`
+	// ZeroRoot: when > 0, root ZeroRoot-1 of the universe is the all-zero root (a legal 32-byte value like
+	// any other: "for any roots and slots").
+	ZeroRoot int  `json:"zero_root,omitempty"`
+	Ops      []Op `json:"ops"`
 }
 
 // burstRoot is a root outside the universe, unique per (op, goroutine, k).
@@ -69,12 +78,20 @@ func burstRoot(op, g, k int) phase0.Root {
 // parentRoot is the parent root reported in root i's header.
 func (c *Case) parentRoot(i int) phase0.Root {
 	if i < len(c.Parent) && c.Parent[i] >= 0 && c.Parent[i] < len(c.RootSlot) {
-		return rootOf(c.Parent[i])
+		return c.root(c.Parent[i])
 	}
 	var r phase0.Root
 	r[0] = byte(i + 1)
 	r[31] = 0xc3 // a root outside the universe
 	return r
+}
+
+// root is the value of root i of the universe.
+func (c *Case) root(i int) phase0.Root {
+	if c.ZeroRoot == i+1 {
+		return phase0.Root{}
+	}
+	return rootOf(i)
 }
 
 func rootOf(i int) phase0.Root {
@@ -88,12 +105,22 @@ func rootOf(i int) phase0.Root {
 type headers struct {
 	c        *Case
 	calls    int
+	callsMu  sync.Mutex
 	failNext bool
 	failKind int
+	// hold, when set, makes every request announce itself on arrived and wait until hold is closed.
+	hold    chan struct{}
+	arrived chan struct{}
 }
 
 func (h *headers) BeaconBlockHeader(_ context.Context, opts *api.BeaconBlockHeaderOpts) (*api.Response[*apiv1.BeaconBlockHeader], error) {
+	h.callsMu.Lock()
 	h.calls++
+	h.callsMu.Unlock()
+	if h.hold != nil {
+		h.arrived <- struct{}{}
+		<-h.hold
+	}
 	if h.failNext {
 		switch h.failKind {
 		case 1:
@@ -106,9 +133,9 @@ func (h *headers) BeaconBlockHeader(_ context.Context, opts *api.BeaconBlockHead
 		return nil, errors.New("scripted header failure")
 	}
 	for i := range h.c.RootSlot {
-		if rootOf(i).String() == opts.Block {
+		if h.c.root(i).String() == opts.Block {
 			return &api.Response[*apiv1.BeaconBlockHeader]{Data: &apiv1.BeaconBlockHeader{
-				Root:      rootOf(i),
+				Root:      h.c.root(i),
 				Canonical: !(i < len(h.c.NonCanonical) && h.c.NonCanonical[i]),
 				Header: &phase0.SignedBeaconBlockHeader{Message: &phase0.BeaconBlockHeader{
 					Slot:       phase0.Slot(h.c.RootSlot[i]),
@@ -152,16 +179,26 @@ func genCase(t *rapid.T) Case {
 	slotInEpoch := uint64(0)
 	var epochsAt []uint64
 	for i := 0; i < nOps; i++ {
-		kind := rapid.SampledFrom([]string{"block", "block", "lookup", "lookup", "lookup", "advance", "clean", "clean", "nilblock", "burst"}).Draw(t, "kind")
+		kind := rapid.SampledFrom([]string{"block", "block", "lookup", "lookup", "lookup", "advance", "clean", "clean", "nilblock", "burst", "colookup"}).Draw(t, "kind")
 		op := Op{Kind: kind}
 		switch kind {
-		case "block", "lookup":
+		case "block", "lookup", "colookup":
 			op.Root = rapid.IntRange(0, nRoots-1).Draw(t, "root")
 			if kind == "lookup" {
 				op.Fail = rapid.IntRange(0, 3).Draw(t, "fail") == 0
 				if op.Fail {
 					op.FailKind = rapid.IntRange(0, 3).Draw(t, "failKind")
 				}
+			}
+			if kind == "colookup" {
+				op.Lookups = rapid.IntRange(2, 3).Draw(t, "lookups")
+				op.Fail = rapid.Bool().Draw(t, "coFail")
+				if op.Fail {
+					op.FailKind = rapid.IntRange(0, 3).Draw(t, "failKind")
+				}
+			}
+			if kind == "block" {
+				op.Optimistic = rapid.IntRange(0, 3).Draw(t, "optimistic") == 0
 			}
 		case "burst":
 			op.Burst = rapid.IntRange(2, 4).Draw(t, "burst")
@@ -190,6 +227,9 @@ func genCase(t *rapid.T) Case {
 		}
 		c.RootSlot = append(c.RootSlot, slot)
 	}
+	if rapid.IntRange(0, 4).Draw(t, "hasZeroRoot") == 0 {
+		c.ZeroRoot = 1 + rapid.IntRange(0, nRoots-1).Draw(t, "zeroRoot")
+	}
 	// Parent links: some root of the universe with a strictly lower slot (any gap: skipped slots), or none.
 	for i := 0; i < nRoots; i++ {
 		parent := -1
@@ -211,7 +251,7 @@ func genCase(t *rapid.T) Case {
 }
 
 type stats struct {
-	missNonZero, cleanAfterRetention, boundaryKept, failedFetch, hitAfterMiss, burst, knewMore bool
+	missNonZero, cleanAfterRetention, boundaryKept, failedFetch, hitAfterMiss, burst, knewMore, coLookup, coLookupFailed, optimistic bool
 }
 
 // runAndJudge executes the history against a fresh real cache service and the
@@ -254,7 +294,10 @@ func runAndJudge(c *Case) (string, string, stats) {
 	for i, op := range c.Ops {
 		switch op.Kind {
 		case "block":
-			blockHandler(&apiv1.Event{Topic: "block", Data: &apiv1.BlockEvent{Slot: phase0.Slot(c.RootSlot[op.Root]), Block: rootOf(op.Root)}})
+			blockHandler(&apiv1.Event{Topic: "block", Data: &apiv1.BlockEvent{Slot: phase0.Slot(c.RootSlot[op.Root]), Block: c.root(op.Root), ExecutionOptimistic: op.Optimistic}})
+			if op.Optimistic {
+				st.optimistic = true
+			}
 			model[op.Root] = true
 			delete(maybe, op.Root)
 		case "nilblock":
@@ -338,12 +381,114 @@ func runAndJudge(c *Case) (string, string, stats) {
 					}
 				}
 			}
+		case "colookup":
+			// Several goroutines look the same root up at once (strategies of different duties ask for the
+			// slot of the same head root at the same moment).  The provider holds the first request until the
+			// other lookups have been started, then answers or fails all of them.
+			want := c.RootSlot[op.Root]
+			where := fmt.Sprintf("op %d concurrent lookup x%d (root %d, true slot %d)", i, op.Lookups, op.Root, want)
+			known, old := model[op.Root], maybe[op.Root]
+			hp.failNext, hp.failKind = op.Fail, op.FailKind
+			hp.hold, hp.arrived = make(chan struct{}), make(chan struct{}, op.Lookups)
+			type res struct {
+				slot phase0.Slot
+				err  error
+			}
+			results := make(chan res, op.Lookups)
+			before := hp.calls
+			lookup := func() {
+				got, err := svc.BlockRootToSlot(ctx, c.root(op.Root))
+				results <- res{got, err}
+			}
+			var collected []res
+			go lookup()
+			select {
+			case <-hp.arrived:
+			case r := <-results: // answered from the cache
+				collected = append(collected, r)
+			case <-time.After(10 * time.Second):
+				return "harness", where + ": first lookup neither asked the node nor returned", st
+			}
+			for k := 1; k < op.Lookups; k++ {
+				go lookup()
+			}
+			// give the later lookups the chance to reach the provider or whatever they wait on; this only
+			// affects which interleaving is explored, not the judgement
+			for k := 1; k < op.Lookups; k++ {
+				select {
+				case <-hp.arrived:
+				case r := <-results:
+					collected = append(collected, r)
+				case <-time.After(20 * time.Millisecond):
+				}
+			}
+			close(hp.hold)
+			for len(collected) < op.Lookups {
+				select {
+				case r := <-results:
+					collected = append(collected, r)
+				case <-time.After(10 * time.Second):
+					return "lookup-never-returned", where + ": a lookup did not return after the node answered", st
+				}
+			}
+			hp.hold, hp.arrived = nil, nil
+			hp.failNext = false
+			consulted := hp.calls - before
+			st.coLookup = true
+			for _, r := range collected {
+				if r.err == nil && uint64(r.slot) != want {
+					if op.Fail {
+						return "failed-fetch-returned-slot", fmt.Sprintf("%s: the header fetch failed but a lookup returned slot %d without error", where, r.slot), st
+					}
+					return "miss-wrong-slot", fmt.Sprintf("%s: a lookup returned slot %d", where, r.slot), st
+				}
+				switch {
+				case known:
+					if r.err != nil {
+						return "hit-error", where + ": cached entry returned error " + r.err.Error(), st
+					}
+				case op.Fail && !old && consulted > 0:
+					// not cached, node asked and failing: nothing can be known
+					if r.err == nil {
+						return "failed-fetch-returned-slot", fmt.Sprintf("%s: the header fetch failed but a lookup returned slot %d without error", where, r.slot), st
+					}
+				case !op.Fail:
+					if r.err != nil {
+						return "miss-error", where + ": fetch succeeded but a lookup returned error " + r.err.Error(), st
+					}
+				}
+			}
+			if known && consulted != 0 {
+				return "retained-entry-refetched", where + ": entry inside the retention window was not answered from the cache", st
+			}
+			switch {
+			case known:
+			case !op.Fail:
+				delete(maybe, op.Root)
+				model[op.Root] = true
+			case !old && consulted == 0:
+				// answered (correctly, see above) without the node: the cache knew more than the model
+				st.knewMore = true
+				model[op.Root] = true
+			case !old:
+				st.coLookupFailed = true
+				// the failure must not have been cached as a slot
+				b2 := hp.calls
+				got2, err2 := svc.BlockRootToSlot(ctx, c.root(op.Root))
+				if hp.calls == b2 {
+					return "failed-fetch-cached", fmt.Sprintf("%s: after a failed fetch the next lookup was answered from the cache (%d,%v)", where, got2, err2), st
+				}
+				if err2 != nil || uint64(got2) != want {
+					return "miss-wrong-slot", fmt.Sprintf("%s: lookup after failed fetch returned (%d,%v)", where, got2, err2), st
+				}
+				model[op.Root] = true
+			}
 		case "lookup":
 			want := c.RootSlot[op.Root]
 			hp.failNext = op.Fail
 			hp.failKind = op.FailKind
 			before := hp.calls
-			got, err := svc.BlockRootToSlot(ctx, rootOf(op.Root))
+			got, err := svc.BlockRootToSlot(ctx, c.root(op.Root))
 			consulted := hp.calls - before
 			where := fmt.Sprintf("op %d lookup(root %d, true slot %d)", i, op.Root, want)
 			switch {
@@ -388,7 +533,7 @@ func runAndJudge(c *Case) (string, string, stats) {
 					// verify immediately that the failure was not cached as a slot
 					hp.failNext = false
 					b2 := hp.calls
-					got2, err2 := svc.BlockRootToSlot(ctx, rootOf(op.Root))
+					got2, err2 := svc.BlockRootToSlot(ctx, c.root(op.Root))
 					if hp.calls == b2 {
 						return "failed-fetch-cached", fmt.Sprintf("%s: after a failed fetch the next lookup was answered from the cache (%d,%v)", where, got2, err2), st
 					}
@@ -411,7 +556,7 @@ func runAndJudge(c *Case) (string, string, stats) {
 				model[op.Root] = true
 				// a miss must be a hit from now on
 				b2 := hp.calls
-				got2, err2 := svc.BlockRootToSlot(ctx, rootOf(op.Root))
+				got2, err2 := svc.BlockRootToSlot(ctx, c.root(op.Root))
 				if hp.calls != b2 {
 					return "miss-not-cached", where + ": a fetched slot was not cached (second lookup asked the node again)", st
 				}
@@ -443,6 +588,18 @@ func check(t ev.TB, c *Case) {
 	}
 	if st.burst {
 		labels = append(labels, "block-events-concurrent-with-clean")
+	}
+	if st.coLookup {
+		labels = append(labels, "concurrent-lookups-of-one-root")
+	}
+	if st.coLookupFailed {
+		labels = append(labels, "concurrent-misses-with-failing-fetch")
+	}
+	if st.optimistic {
+		labels = append(labels, "execution-optimistic-block-event")
+	}
+	if c.ZeroRoot > 0 {
+		labels = append(labels, "zero-root-in-universe")
 	}
 	if st.knewMore {
 		labels = append(labels, "cache-knew-a-root-the-model-did-not(correctly)")
